@@ -14,6 +14,7 @@ import (
 	"encoding/json"
 	"fmt"
 	"os"
+	"reflect"
 	"unsafe"
 
 	ed "filippo.io/edwards25519"
@@ -21,25 +22,68 @@ import (
 )
 
 // ---------------------------------------------------------------------------
-// raw views (layout guarded by the selftest)
+// raw views.  The offsets of the coordinates inside Point are looked up by
+// reflection, so that a refactoring that adds or reorders unexported fields
+// does not blind the driver; everything is re-checked by the self-test.
 
 type elemRaw [5]uint64
 type scalarRaw [4]uint64
 type pointRaw struct{ x, y, z, t elemRaw }
 
-func elemView(e *field.Element) *elemRaw  { return (*elemRaw)(unsafe.Pointer(e)) }
-func scalarView(s *ed.Scalar) *scalarRaw  { return (*scalarRaw)(unsafe.Pointer(s)) }
-func pointView(p *ed.Point) *pointRaw     { return (*pointRaw)(unsafe.Pointer(p)) }
+var (
+	pointOff  [4]uintptr
+	pointSize = unsafe.Sizeof(ed.Point{})
+	scalarOff uintptr
+	layoutErr error
+)
+
+func init() {
+	et := reflect.TypeOf(field.Element{})
+	if et.Size() != 40 {
+		layoutErr = fmt.Errorf("field.Element is %d bytes, want 40 (five 64-bit limbs)", et.Size())
+		return
+	}
+	pt := reflect.TypeOf(ed.Point{})
+	for i, name := range []string{"x", "y", "z", "t"} {
+		f, ok := pt.FieldByName(name)
+		if !ok || f.Type != et {
+			layoutErr = fmt.Errorf("Point has no field.Element field %q", name)
+			return
+		}
+		pointOff[i] = f.Offset
+	}
+	st := reflect.TypeOf(ed.Scalar{})
+	found := false
+	for i := 0; i < st.NumField(); i++ {
+		if st.Field(i).Type.Size() == 32 {
+			scalarOff = st.Field(i).Offset
+			found = true
+		}
+	}
+	if !found {
+		layoutErr = fmt.Errorf("Scalar has no 32-byte field")
+	}
+}
+
+func elemView(e *field.Element) *elemRaw { return (*elemRaw)(unsafe.Pointer(e)) }
+func scalarView(s *ed.Scalar) *scalarRaw {
+	return (*scalarRaw)(unsafe.Pointer(uintptr(unsafe.Pointer(s)) + scalarOff))
+}
+func pointCoord(p *ed.Point, i int) *elemRaw {
+	return (*elemRaw)(unsafe.Pointer(uintptr(unsafe.Pointer(p)) + pointOff[i]))
+}
+func pointView(p *ed.Point) *pointRaw {
+	return &pointRaw{*pointCoord(p, 0), *pointCoord(p, 1), *pointCoord(p, 2), *pointCoord(p, 3)}
+}
+
+// the whole memory of an object, hidden fields included (for the frame observation)
+func rawBytes(p unsafe.Pointer, n uintptr) string {
+	return string(unsafe.Slice((*byte)(p), int(n)))
+}
 
 func layoutOK() error {
-	if unsafe.Sizeof(field.Element{}) != 40 {
-		return fmt.Errorf("field.Element is %d bytes, want 40", unsafe.Sizeof(field.Element{}))
-	}
-	if unsafe.Sizeof(ed.Scalar{}) != 32 {
-		return fmt.Errorf("Scalar is %d bytes, want 32", unsafe.Sizeof(ed.Scalar{}))
-	}
-	if unsafe.Sizeof(ed.Point{}) != 160 {
-		return fmt.Errorf("Point is %d bytes, want 160", unsafe.Sizeof(ed.Point{}))
+	if layoutErr != nil {
+		return layoutErr
 	}
 	// round trips through the public API
 	var one field.Element
@@ -249,8 +293,8 @@ func (r *regs) obj(name string) interface{} {
 
 // raw snapshot of every register, for the frame ("delta") observation
 type snapshot struct {
-	p [nPoints]pointRaw
-	s [nScalars]scalarRaw
+	p [nPoints]string
+	s [nScalars]string
 	e [nElems]elemRaw
 	b [nBufs]string
 	h [nBufs]bool
@@ -259,10 +303,10 @@ type snapshot struct {
 func (r *regs) snap() *snapshot {
 	s := &snapshot{}
 	for i := range r.p {
-		s.p[i] = *pointView(r.p[i])
+		s.p[i] = rawBytes(unsafe.Pointer(r.p[i]), pointSize)
 	}
 	for i := range r.s {
-		s.s[i] = *scalarView(r.s[i])
+		s.s[i] = rawBytes(unsafe.Pointer(r.s[i]), unsafe.Sizeof(ed.Scalar{}))
 	}
 	for i := range r.e {
 		s.e[i] = *elemView(r.e[i])
@@ -357,7 +401,7 @@ func retElem(r *regs, recv string, got *field.Element) string {
 	for i := range r.p {
 		base := uintptr(unsafe.Pointer(r.p[i]))
 		a := uintptr(unsafe.Pointer(got))
-		if a >= base && a < base+160 {
+		if a >= base && a < base+pointSize {
 			return fmt.Sprintf("inside-p%d", i)
 		}
 	}
